@@ -40,6 +40,12 @@ CHECKS = {
  "C10": dict(technique="TLC-checked theorems of Symmetry.tla + TLC judge of from_values_to_sort/reindex/rewrite and of representative() on every reachable state of real actor systems + real symmetric DFS/simulation runs judged against the unreduced graph semantics",
              text="Stable-sort plan, reindex and 13 Rewrite impls are judged on all vectors with ties / all plans of size <=4; representative() of every recorded state of generated actor systems equals Permute(stable plan) of ActorSystem.tla; spawn_dfs with symmetry on generated symmetric process-vector models gives exact always/sometimes verdicts, covers every orbit, evaluates no more states than the unreduced graph has, and reports real paths.",
              note="table systems carry ids only in envelope endpoints; symmetric models have 2-3 processes", ref="4/C10"),
+ "C05": dict(technique="TLC model checking of JobMarket.tla (safety, deadlock freedom, termination, stop propagation under fairness; 1-3 workers + timeout thread) + TLA+ trace validation of the real job market's event log (hooks) against JobMarketTrace.tla + big-graph runs judged against Graph!Reach",
+             text="All interleavings of the lock-level protocol are explored by TLC on the spec (no job lost or duplicated, close only when idle, no lost wake-up, termination, a stop reason reaches every worker). The implementation is bound to it by validating, line by line, the event log emitted inside every critical section of the real JobBroker - scripted multi-thread scenarios and real bfs/dfs/on-demand runs with 1-16 threads and schedule perturbation on graphs of thousands of states - and by judging each run's visited set, counts and verdicts against the graph semantics; finish/target/panic stop reasons included.",
+             note="real interleavings are sampled; parking_lot primitives trusted; DashMap insert-if-absent races are covered at outcome level (exactly-once visits)", ref="4/C05"),
+ "C12": dict(technique="TLC judge of HasDiscoveries::matches on the whole bounded domain + observation validation of runs over finish/target/depth/seed configurations (CheckerObs) + JobMarket.tla BoundedDelay (design) + timed timeout runs and market-log validation judged by TLC",
+             text="matches() agrees with HasDiscoveries.tla on every property list <=3 x discovery subset x variant; real runs of all strategies x finish conditions x targets x depth limits x threads stop early only with a reason, reach the target unless exhausted, never evaluate beyond the depth limit (1-thread BFS evaluates everything nearer), replay the first simulation trace for a seed; timeouts stop every thread count within expiry + poll + slack on an unbounded model, and an unexpired timeout leaves counts and progress unchanged with the timeout thread never sleeping under the market lock.",
+             note="wall-clock bounds include slack; OS timing is sampled", ref="4/C12"),
  "C11": dict(technique="TLA+ observation validation against Graph!EvCex (maximal-path semantics), exactness on generated forests",
              text="Reported eventually-counterexamples are judged by TLC against the existence of a maximal in-boundary path avoiding the condition (terminal or cycle in the non-sat region); on forest-shaped graphs the converse is judged too.",
              note="trusts TLC; forests are recognised by Graph!IsForest", ref="4/C11"),
